@@ -43,5 +43,11 @@ IsPerm(s, t)    == Len(s) = Len(t) /\ \A x \in Range(s) \cup Range(t) :
 SSort(s)        == SortSeq(s, LAMBDA a, b : a < b)
 SMin(s)         == IF s = <<>> THEN <<>> ELSE <<Min(Range(s))>>
 SMax(s)         == IF s = <<>> THEN <<>> ELSE <<Max(Range(s))>>
+Min2(a, b)      == IF a < b THEN a ELSE b
+\* Zip with a literal second operand, Zip3 with the literal and the reversed first n elements of the literal: the result
+\* ends with the shortest operand; element i is encoded as x + 10 * l[i] (+ 100 * third[i])
+SZip(s, l)      == [i \in 1..Min2(Len(s), Len(l)) |-> s[i] + 10 * l[i]]
+ZThird(l, n)    == LET k == Min2(n, Len(l)) IN [i \in 1..k |-> l[k + 1 - i]]
+SZip3(s, l, n)  == LET t == ZThird(l, n) IN [i \in 1..Min2(Len(s), Min2(Len(l), Len(t))) |-> s[i] + 10 * l[i] + 100 * t[i]]
 SZipIdx(s)      == [i \in 1..Len(s) |-> 100 * (i - 1) + s[i]]      \* (index, x) encoded as 100*index + x
 =============================================================================
